@@ -17,11 +17,14 @@ META = {
     "level": "proof",
     "technique": "Coq refinement proofs (executable models of ArrayList/SLList/lru/ReservedVector/BitSetVector refine list / association-list "
                  "specs for all operation histories) + extracted model vs ASan/UBSan C++ drivers on exhaustive short and boundary-directed long histories, spec oracle",
-    "text": "Theorems in coq/Properties_C11.v: for every operation history the literal models (chunk vector with start_/size_/capacity_ index "
-            "arithmetic; heap of singly linked nodes with sentinel and tail_; node list + key index; array + size_; flat bit vector with block proxies) "
-            "produce exactly the observations of the abstract sequence / recency-ordered map / list of bit blocks.  The models are tied to the headers on "
-            "every run: the real containers (sanitizer build of the working tree) and the extracted models execute the same histories and their "
-            "observations after every operation are compared with the spec oracle.",
+    "text": "Theorems in coq/Properties_C11.v (all closed under the global context): for EVERY operation history the literal models - ArrayList "
+            "(chunk vector with start_/size_/capacity_ index arithmetic, any chunk size, held iterator), SLList at pointer level (heap of nodes, sentinel, "
+            "tail_, modify iterators, copy/assignment/comparison), lru (node list + key index), ReservedVector (array + size_) - produce exactly "
+            "(ReservedVector: match, unspecified values after a growing resize excepted) the observations of the abstract sequence / recency-ordered map; "
+            "BitSetVector only has the addressing lemma proved (C11_bitset_addressing_partial), its histories are covered by the correspondence run alone.  "
+            "Three refutation theorems give Coq witnesses for the snapshot's purge / self-assignment / insert-present-key defects.  The models are tied to "
+            "the headers on every run: the real containers (ASan+UBSan build of the working tree) and the extracted models execute the same histories and "
+            "their observations after every operation are compared with the extracted spec oracle.",
     "note": "Trusted: Coq kernel, extraction, OCaml driver, C++ harness; std::list/map/vector<bool>/bitset/array/shared_ptr at their abstract semantics.",
     "design_ref": "DESIGN.md section 4 C11",
 }
@@ -510,6 +513,8 @@ def run(ctx):
         "compile_probes": {k: v[0] for k, v in pr.items()}, "exhaustive": False,
         "traces_validated_against_impl": len(cases),
     })
+    ctx.notes.append("BitSetVector: refinement over histories NOT proved (only C11_bitset_addressing_partial); covered by correspondence + oracle only")
+    ctx.notes.append("deep stream (ArrayList start_/capacity_/null pattern, SLList tail_ reachability) not implemented: public observations only")
     ctx.assumptions += ["std::list / std::map / std::vector<bool> / std::bitset / std::array / std::shared_ptr taken at their abstract semantics",
                         "element type int in the impl drivers, polymorphic T in the theorems",
                         "ArrayList model holds chunks by value (no aliasing of shared_ptr after the proposed purge fix); the snapshot's aliasing is modelled separately with chunk identities (c11_alo_*)"]
